@@ -14,9 +14,9 @@ What is modelled, and where it comes from:
   (stream.rs:1689-1700, :1702-1715, :1717-1736, :1738-1783) — the field splitting done by the
   streaming decoder before calling `decode`.  (`limits.reserve_bytes(buf.len())`, the first statement
   of the three `parse_*` functions, belongs to the resource-limit property C06 and is not part of
-  this model; a chunk that is refused for that reason never reaches the code modelled here.  Likewise a
-  text chunk of length zero never reaches `parse_chunk` at all — `ReadChunkData` with nothing
-  remaining goes straight to the CRC, stream.rs:741-744 — and is skipped without an error.)
+  this model; a chunk that is refused for that reason never reaches the code modelled here.  A text
+  chunk of length zero is parsed like any other since /repo f31d047 (no NUL separator: refused); before
+  that it went straight to the CRC and was skipped.)
 * `TEXt.encodeBody`/`ZTXt.encodeBody`/`ITXt.encodeBody` (`EncodableTextChunk::encode`, :214-234,
   :344-382, :523-600): the chunk *data* handed to `encoder::write_chunk` (length, type and CRC
   are C12's business);
